@@ -426,8 +426,23 @@ def _op_balance(self, op):
             if cfg.get("repeat") and cfg["map"] != "cli":
                 try:
                     bias2, stats2, vars2, _ = run_one(cfg, replay_choices=choices)
-                    if not (np.array_equal(bias, bias2, equal_nan=True) and vars2 == vars_):
-                        errs.append(("O-repeat", label + "a repeated run with the same schedule is not bitwise identical"))
+                    # "the same - up to floating-point summation order - ... for repeated runs": NumPy's
+                    # reductions may round differently from call to call (SIMD paths chosen by the
+                    # alignment of freshly allocated buffers), so bitwise identity is more than the
+                    # property states (false alarm met in the thorough tier with counts ~2e7, where the
+                    # iteration runs at the rounding floor; DESIGN 7.4). Identical is counted as a probe.
+                    if np.array_equal(bias, bias2, equal_nan=True) and vars2 == vars_:
+                        self.stat("repeat-bitwise-identical")
+                    same = (np.array_equal(np.isnan(bias), np.isnan(bias2)) and _close(bias, bias2) and
+                            len(vars2) == len(vars_) and
+                            _var_close(stats2["var"], stats["var"], stats["scale"]) and _close(stats2["scale"], stats["scale"], 1e-6))
+                    if not same:
+                        nb_ = int(np.sum(~(np.isclose(bias, bias2, rtol=0, atol=0, equal_nan=True))))
+                        errs.append(("O-repeat", label + "a repeated run with the same schedule is not bitwise identical"
+                                     " (%d weights differ, max rel %.3g; sweeps %d vs %d, first differing variance #%s)" % (
+                                         nb_, float(np.nanmax(np.abs(np.nan_to_num(bias / bias2) - 1))) if nb_ else 0.0,
+                                         len(vars_), len(vars2),
+                                         next((k_ for k_, (x_, y_) in enumerate(zip(vars_, vars2)) if x_ != y_), None))))
                     else:
                         self.stat("repeat-identical")
                 except Exception as e:
